@@ -564,11 +564,18 @@ class AsyncFIXConnection:
                 msg_logon.set(FTag.EncryptMethod, logon_msg[FTag.EncryptMethod])
                 msg_logon.set(FTag.HeartBtInt, logon_msg[FTag.HeartBtInt])
                 await self.send_msg(msg_logon)
+                if self._connection_state <= ConnectionState.DISCONNECTED_BROKEN_CONN:
+                    # disconnected while Logon() response was draining
+                    return
 
         if msg_seq_num == self._session.next_num_in:
             await self._state_set(ConnectionState.ACTIVE)
         else:
             await self._state_set(ConnectionState.RECV_SEQNUM_TOO_HIGH)
+
+        if self._connection_state <= ConnectionState.DISCONNECTED_BROKEN_CONN:
+            # disconnected inside on_state_change()
+            return
 
         await self.on_logon(self._connection_state == ConnectionState.ACTIVE)
 
@@ -590,6 +597,9 @@ class AsyncFIXConnection:
                 )
                 self._max_seq_num_resend = msg_seq_num
                 await self.send_msg(resend_req)
+                if self._connection_state <= ConnectionState.DISCONNECTED_BROKEN_CONN:
+                    # disconnected while ResendRequest() was draining
+                    return False
                 await self._state_set(ConnectionState.RESENDREQ_AWAITING)
             return False
 
